@@ -147,7 +147,8 @@ def line_cases(draw):
   items = with_repeats(draw, draw(line_items()))
   total = sum(len(i['hex']) // 2 + 1 for i in items)
   cuts = draw(st.lists(st.integers(1, max(1, total - 1)), max_size=8))
-  return {'listener': 'line', 'items': items, 'cuts': sorted(set(cuts)), 'lists': draw(st.integers(0, 3)) == 0}
+  return {'listener': 'line', 'items': items, 'cuts': sorted(set(cuts)), 'lists': draw(st.integers(0, 3)) == 0,
+          'log_conn': draw(st.sampled_from([None, None, [False, False], [False, True], [True, True]]))}
 
 
 @st.composite
@@ -156,7 +157,8 @@ def udp_cases(draw):
   for _ in range(draw(st.integers(1, 3))):
     items = with_repeats(draw, draw(line_items(udp=True)))
     dgs.append({'items': items, 'final_eol': draw(st.booleans())})
-  return {'listener': 'udp', 'datagrams': dgs, 'lists': draw(st.integers(0, 3)) == 0}
+  return {'listener': 'udp', 'datagrams': dgs, 'lists': draw(st.integers(0, 3)) == 0,
+          'log_conn': draw(st.sampled_from([None, None, [False, False], [False, True], [True, True]]))}
 
 
 # ---- pickle ---------------------------------------------------------------
@@ -281,7 +283,8 @@ def pickle_cases(draw):
   items = with_repeats(draw, draw(st.lists(pickle_frame_item(), min_size=1, max_size=7)))
   total = sum(len(i['hex']) // 2 for i in items)
   cuts = draw(st.lists(st.integers(1, max(1, total - 1)), max_size=8))
-  return {'listener': 'pickle', 'items': items, 'cuts': sorted(set(cuts)), 'lists': draw(st.integers(0, 3)) == 0}
+  return {'listener': 'pickle', 'items': items, 'cuts': sorted(set(cuts)), 'lists': draw(st.integers(0, 3)) == 0,
+          'log_conn': draw(st.sampled_from([None, None, [False, False], [False, True], [True, True]]))}
 
 
 # ------------------------------------------------------------------ oracle
@@ -346,6 +349,9 @@ def reset_for(case):
   that matches none, loaded from files the way the daemon loads them: the same datapoints are expected."""
   b = env.bootstrap()
   extra = {}
+  if case.get('log_conn') is not None:
+    # connection logging switched off / on (documented options): error paths format the peer's name either way
+    extra['LOG_LISTENER_CONN_SUCCESS'], extra['LOG_LISTENER_CONN_LOST'] = case['log_conn']
   if case.get('pickle_max_length'):
     extra['PICKLE_RECEIVER_MAX_LENGTH'] = case['pickle_max_length']     # carbon.conf: the configured maximum frame length
   if not case.get('lists'):
